@@ -7,6 +7,7 @@ CONSTANTS RF1 = {1, 2, 3, 4}
           Outcomes = {"ok", "conflict", "unavailable", "notready"}
           Outcomes2 = {"ok", "conflict", "unavailable", "notready"}
           ReplThresholdIsQuorum = FALSE
+          StaleMapReused = FALSE
           WithTimeout = FALSE
           CaseRF1 = {1, 2, 3, 4}
           CaseRFLocal = {1, 2, 3}
